@@ -8,6 +8,7 @@
     [codec_ok] is assumed. *)
 
 From Coq Require Import NArith PeanoNat List Bool.
+From Coq.Strings Require Import Byte.
 From DC Require Import Crc Frame FrameProofs.
 Import ListNotations.
 Open Scope N_scope.
@@ -126,25 +127,11 @@ Proof. exact legacy_using_four_zeros. Qed.
 (** ** Non-vacuity: a concrete codec meets [codec_ok], and the theorems' hypotheses
     hold for concrete non-trivial frames. *)
 
-Definition ex_codec : codec (bool * bool) := {|
-  fixed := 2;
-  archive := fun p => [N.b2n (fst p); N.b2n (snd p)];
-  view := fun bs => match bs with [x; y] => Some (N.odd x, N.odd y) | _ => None end;
-|}.
-
-Definition ex_status_codec : codec status_t := {|
-  fixed := 1;
-  archive := fun s => (st_code s mod 256) :: map (fun x => x mod 256) (st_message s);
-  view := fun bs => match bs with c :: m => Some {| st_code := c; st_message := m |} | [] => None end;
-|}.
-
 Example C12_nonvacuous_codec : codec_ok ex_codec.
-Proof.
-  split; [|split].
-  - intros [[|] [|]]; reflexivity.
-  - intros p. cbn. auto.
-  - intros [[|] [|]]; repeat constructor.
-Qed.
+Proof. exact ex_codec_ok. Qed.
+
+Example C12_nonvacuous_status_codec : codec_ok ex_status_codec.
+Proof. exact ex_status_codec_ok. Qed.
 
 Example C12_nonvacuous_frames :
   let b := [1; 2; 3; 250; 0; 255] in
@@ -161,12 +148,16 @@ Example C12_nonvacuous_frames :
 Proof. vm_compute. repeat split; reflexivity. Qed.
 
 Example C12_nonvacuous_call :
-  let handler := fun p : bool * bool =>
-    if fst p then inl (snd p, fst p) else inr {| st_code := 1; st_message := [111; 104] |} in
-  let inv := {| st_code := 2; st_message := [73] |} in
-  call ex_codec ex_codec ex_status_codec inv handler (true, false) = ([(true, false)], inl (false, true)) /\
+  let oh := {| st_code := InternalError; st_message := [x6f; x68]%byte |} in
+  let inv := {| st_code := InvalidPayload; st_message := [x49]%byte |} in
+  let handler := fun p : bool * bool => if fst p then inl (snd p, fst p) else inr oh in
+  call ex_codec ex_codec ex_status_codec inv handler (true, false)
+    = ([(true, false)], inl (false, true)) /\
   call ex_codec ex_codec ex_status_codec inv handler (false, true)
-    = ([(false, true)], inr {| st_code := 1; st_message := [111; 104] |}) /\
+    = ([(false, true)], inr oh) /\
   server ex_codec ex_codec ex_status_codec inv handler [0; 0; 0; 0]
-    = ([], {| http_ok := false; resp_body := encode ex_status_codec inv |}).
+    = ([], {| http_ok := false; resp_body := encode ex_status_codec inv |}) /\
+  model_echo 2 (frame [7; 9]) = ([[7; 9]], inl [7; 9]) /\
+  model_echo 3 (frame [7; 9]) = ([], inr raw_invalid) /\
+  model_status 1 [111; 104] = inr (1, [111; 104]).
 Proof. vm_compute. repeat split; reflexivity. Qed.
